@@ -246,7 +246,11 @@ def prop_planner(case, ctx):
             # (with a generous expansion budget - the default is 100 rounds - the belief set holds every reachable belief)
             # observations reveal the state: at the initial belief and at the point beliefs reachable from it the
             # point-based value must also not fall short of the optimum by more than the slack of its threshold
-            slack = 2 * eps / (1 - arr.gamma) + 1e-7 * scale
+            # slack implied by the threshold and by the planning horizon msdm derives from it (Pineau et al.): after H backups
+            # from alpha = 0 the value can still miss gamma^H * max(0, r_max) / (1 - gamma)
+            sar_ = np.asarray(pomdp.state_action_reward_matrix)
+            H_ = int(np.ceil(np.log(eps / float(sar_.max() - sar_.min())) / np.log(arr.gamma)))
+            slack = 2 * eps / (1 - arr.gamma) + max(0.0, arr.rmax) * arr.gamma ** max(H_, 0) / (1 - arr.gamma) + 1e-7 * scale
             reach = arr.reachable_beliefs(2)[:10]
             for b in reach:
                 if not (np.isclose(b.max(), 1.0) or np.allclose(b, arr.p0)):
